@@ -146,6 +146,21 @@ pub fn gen_doc(r: &mut Rng) -> J {
             }
         }
     }
+    // occasionally two long lists that mostly agree (comparisons between multi-valued queries)
+    if r.chance(1, 6) {
+        let n = 9 + r.usize(8);
+        let a: Vec<J> = (0..n).map(|i| if r.chance(1, 5) { J::Str(format!("s{}", i)) } else { J::Int(i as i64 * 3) }).collect();
+        let mut b = a.clone();
+        for _ in 0..(2 + r.usize(4)) {
+            let i = r.usize(b.len());
+            b[i] = J::Int(1000 + i as i64);
+        }
+        if r.chance(1, 3) {
+            r.shuffle(&mut b);
+        }
+        kv.push(("long_a".into(), J::List(a)));
+        kv.push(("long_b".into(), J::List(b)));
+    }
     J::Map(kv)
 }
 
